@@ -5,7 +5,8 @@ import LitexModel.Fhdl.IntBits
 
   * `bitsSign`  mirrors `migen.fhdl.bitcontainer.value_bits_sign`
   * `evalF`     mirrors `litex.gen.sim.core.Evaluator.eval` (unbounded Python integers; truncation happens
-                only in `assign`, `If`, `Case`, `Cat`, `Replicate`, `_Slice`)
+                only in `assign`, `If`, `Case`, `Cat`, `Replicate`, `_Slice` and — since the fix of
+                C01-mux-condition-unmasked — on the condition of a `Mux`)
 -/
 namespace Litex.C01
 
@@ -104,7 +105,7 @@ def evalF (ρ : Env) : Expr → Int
   | .op1 .neg a => - evalF ρ a
   | .op1 .not a => notI (evalF ρ a)
   | .op2 o a b => evalOp2 o (evalF ρ a) (evalF ρ b)
-  | .mux c a b => if evalF ρ c ≠ 0 then evalF ρ a else evalF ρ b
+  | .mux c a b => if tn (bitsSign c).1 (evalF ρ c) ≠ 0 then evalF ρ a else evalF ρ b
   | .slice a lo hi => tn (hi - lo) (evalF ρ a / p2 lo)
   | .cat l => evalCat ρ l
   | .rep a n => replV (bitsSign a).1 (tn (bitsSign a).1 (evalF ρ a)) n
